@@ -243,6 +243,16 @@ EDGE = \
     , E1 + [['--nf-power', '0'], ['--near-field', '5,5,5,1,1,1,1,1,1']], E1 + [['--excitation-voltage', '0']], E1 + [['--excitation-voltage', '0'], ['--near-field', '5,5,5,1,1,1,1,1,1'], ['--nf-power', '10']]
     , E1 + [['--excitation-pulse', '2'], ['--excitation-pulse', '2']], E1 + [['--excitation-pulse', '2'], ['--excitation-pulse', '3'], ['--excitation-voltage', '1'], ['--excitation-voltage', '-1']]
     , E1 + [['--excitation-pulse', '2'], ['--excitation-voltage', '1'], ['--excitation-voltage', '2']]
+    # output files that cannot be written: directory missing, path is a directory, no permission to create
+    , E1 + [['--output-cmdline', '@TMP@/missing/o.pym']], E1 + [['--output-basic-input', '@TMP@/missing/o.mini']]
+    , E1 + [['--output-cmdline', '@TMP@']], E1 + [['--output-basic-input', '@TMP@']]
+    , E1 + [['--output-cmdline', '/proc/version/o.pym']], E1 + [['--output-basic-input', '/proc/o.mini']], E1 + [['--output-cmdline', '']]
+    , E1 + [['--output-cmdline', '@TMP@/o.pym'], ['--output-basic-input', '@TMP@/o.pym']]
+    # Laplace loads of high order (the listing multiplies the coefficient of S^k by 10^(6k))
+    ] + [ [['-f', f], ['-w', '10,0,0,0,0,0,10,0.01'], ['--laplace-load-a', ','.join (['1'] * n)], ['--laplace-load-b', ','.join (['1'] * n)], ['--attach-load', '1,2']] + x
+          for f in ('7.1', '0.001', '1e-6') for n in (12, 30, 51, 52, 53, 60, 120) for x in ([], [['--output-basic-input', '@TMP@/o.mini']], [['--output-cmdline', '@TMP@/o.pym']])
+    ] + [ [['-f', f], ['-w', '10,0,0,0,0,0,10,0.01'], ['--laplace-load-a', '1,' + ','.join (['0'] * n) + ',' + v], ['--laplace-load-b', '1,1'], ['--attach-load', '1,2']]
+          for f in ('7.1', '0.001') for n in (0, 3, 20, 49) for v in ('1e-300', '1e290', '1e300', '1e308', '1e5')
     ]
 
 def plan (tier, seed):
@@ -401,7 +411,7 @@ def mutate (rng, groups):
     groups = [list (g) for g in groups]
     names  = []
     for k in range (int (rng.choice ([1, 1, 2, 3]))):
-        kind = str (rng.choice (['field', 'field', 'field', 'arity', 'tag', 'add', 'add', 'drop', 'dup', 'degenerate']))
+        kind = str (rng.choice (['field', 'field', 'field', 'arity', 'tag', 'add', 'add', 'drop', 'dup', 'degenerate', 'long', 'path']))
         cand = [i for i, g in enumerate (groups) if g [1] is not None and not g [1].startswith ('@TMP@')]
         if kind in ('field', 'arity', 'tag') and cand:
             i = int (rng.choice (cand))
@@ -420,6 +430,18 @@ def mutate (rng, groups):
                 parts [j] = str (rng.choice (TAGS))
             groups [i][1] = ','.join (parts)
             names.append (o)
+        elif kind == 'long':
+            # a value list far longer than anything the option expects
+            ll = [i for i, g in enumerate (groups) if g [0] in ('--laplace-load-a', '--laplace-load-b', '--rlc-load', '--trap-load', '-w', '--medium', '--near-field')]
+            if ll:
+                i = int (rng.choice (ll))
+                parts = groups [i][1].split (',')
+                groups [i][1] = ','.join ((parts * 70) [: int (rng.choice ([9, 10, 20, 52, 53, 64, 200]))])
+                names.append ('long:' + groups [i][0])
+        elif kind == 'path':
+            o = str (rng.choice (['--output-cmdline', '--output-basic-input']))
+            groups.append ([o, str (rng.choice (['@TMP@/missing/x', '@TMP@', '/proc/version/x', '/dev/null', '/dev/full', '@TMP@/' + 'n' * 300]))])
+            names.append ('path:' + o)
         elif kind == 'add':
             o = EXTRA [int (rng.integers (0, len (EXTRA)))][0]
             groups.append ([o, hostile_value (rng, o)])
